@@ -78,6 +78,8 @@ impl ProvisionSharedState {
             while let Some(action) = rx.recv().await {
                 match action {
                     ProvisionAction::UpdateState { state, response } => {
+                        #[cfg(azure_guestproxyagent_verif)]
+                        crate::shared_state::verif_actor::on_message("provision", "UpdateState");
                         provision_state |= state;
                         if let Err(new_state) = response.send(provision_state.clone()) {
                             logger::write_warning(format!(
@@ -87,6 +89,8 @@ impl ProvisionSharedState {
                         }
                     }
                     ProvisionAction::ResetState { state, response } => {
+                        #[cfg(azure_guestproxyagent_verif)]
+                        crate::shared_state::verif_actor::on_message("provision", "ResetState");
                         provision_state &= !state;
                         if let Err(new_state) = response.send(provision_state.clone()) {
                             logger::write_warning(format!(
@@ -96,6 +100,8 @@ impl ProvisionSharedState {
                         }
                     }
                     ProvisionAction::GetState { response } => {
+                        #[cfg(azure_guestproxyagent_verif)]
+                        crate::shared_state::verif_actor::on_message("provision", "GetState");
                         if let Err(state) = response.send(provision_state.clone()) {
                             logger::write_warning(format!(
                                 "Failed to send response to ProvisionAction::GetState with state '{:?}'",
@@ -104,12 +110,16 @@ impl ProvisionSharedState {
                         }
                     }
                     ProvisionAction::SetEventLogThreadsInitialized { response } => {
+                        #[cfg(azure_guestproxyagent_verif)]
+                        crate::shared_state::verif_actor::on_message("provision", "SetEventLogThreadsInitialized");
                         provision_event_log_threads_initialized = true;
                         if response.send(()).is_err() {
                             logger::write_warning("Failed to send response to ProvisionAction::SetEventLogThreadsInitialized".to_string());
                         }
                     }
                     ProvisionAction::GetEventLogsThreadsInitialized { response } => {
+                        #[cfg(azure_guestproxyagent_verif)]
+                        crate::shared_state::verif_actor::on_message("provision", "GetEventLogsThreadsInitialized");
                         if let Err(initialized) =
                             response.send(provision_event_log_threads_initialized)
                         {
@@ -120,6 +130,8 @@ impl ProvisionSharedState {
                         }
                     }
                     ProvisionAction::SetProvisionFinished { finished, response } => {
+                        #[cfg(azure_guestproxyagent_verif)]
+                        crate::shared_state::verif_actor::on_message("provision", "SetProvisionFinished");
                         if finished {
                             provision_finished_time_tick = misc_helpers::get_date_time_unix_nano();
                         } else {
@@ -133,6 +145,8 @@ impl ProvisionSharedState {
                         }
                     }
                     ProvisionAction::GetProvisionFinished { response } => {
+                        #[cfg(azure_guestproxyagent_verif)]
+                        crate::shared_state::verif_actor::on_message("provision", "GetProvisionFinished");
                         if let Err(finished) = response.send(provision_finished_time_tick) {
                             logger::write_warning(format!(
                                 "Failed to send response to ProvisionAction::GetProvisionFinished with finished '{:?}'",
